@@ -97,7 +97,7 @@ package lossy
 //@   property C02 C06
 //@   requires enc != nil && 1 <= enc.width && enc.width <= 16383 && 1 <= enc.height && enc.height <= 16383
 //@   requires len(part0) < 1<<19 && 1 <= len(tokenParts) && len(tokenParts) <= 8
-//@   requires forall j int :: 0 <= j && j < len(tokenParts) ==> len(tokenParts[j]) < 1<<24
+//@   requires forall j int in 0..7 :: j < len(tokenParts)-1 ==> len(tokenParts[j]) < 1<<24
 //@   modifies nothing
 //@   loop 0: invariant 0 <= totalSize && totalSize <= 13 + len(part0) + 3*8 + (rangeindex+1)*(1<<24)
 //@   loop 1: invariant 0 <= i && i <= len(tokenParts)-1 && len(buf) == 10 + len(part0) + 3*i
@@ -123,5 +123,15 @@ package lossy
 //@ func (enc *VP8Encoder) emitFrame
 //@   property C02
 //@   requires enc != nil && 1 <= enc.width && enc.width <= 16383 && 1 <= enc.height && enc.height <= 16383
-//@   abstract emitPartition0, emitTokenPartitions
+//@   requires 1 <= enc.numParts && enc.numParts <= 8
 //@   modifies *
+//
+// Assumed summaries of the entropy-coding back ends (outside reach): they do
+// not touch the picture dimensions; the number of token partitions is numParts.
+//@ func (enc *VP8Encoder) emitPartition0
+//@   trusted
+//@   ensures enc.width == old(enc.width) && enc.height == old(enc.height) && enc.numParts == old(enc.numParts)
+//
+//@ func (enc *VP8Encoder) emitTokenPartitions
+//@   trusted
+//@   ensures enc.width == old(enc.width) && enc.height == old(enc.height) && len(result) == old(enc.numParts)
